@@ -54,9 +54,8 @@ def tag_value(v, t):
     return v
 
 
-class Tagger:
-    def __init__(self, name):
-        self.name = name
+class TaggerHooks:
+    """The hooks live in a base class: directive implementations may inherit them (mixins, shared bases)."""
 
     def _t(self, kind, dargs, ctx):
         inst = dargs.get("t")
@@ -84,6 +83,23 @@ class Tagger:
             ctx["enum_out"].append(t)   # an enum result must stay a declared value: counted, not traced
             return r
         return tag_value(r, t)
+
+
+class Tagger(TaggerHooks):
+    def __init__(self, name):
+        self.name = name
+
+
+class OwnTagger:
+    """Same hooks, defined in the class's own body."""
+
+    def __init__(self, name):
+        self.name = name
+    _t = TaggerHooks._t
+    on_post_input_coercion = TaggerHooks.on_post_input_coercion
+    on_argument_execution = TaggerHooks.on_argument_execution
+    on_field_execution = TaggerHooks.on_field_execution
+    on_pre_output_coercion = TaggerHooks.on_pre_output_coercion
 
 
 class StrScalar:
@@ -404,8 +420,9 @@ def gen_request(rng, m):
 async def build(m):
     from tartiflette import Directive, Engine, Resolver, Scalar
     name = boot.fresh_schema_name("c13")
-    for n in DNAMES:
-        Directive(n, schema_name=name)(Tagger(n))
+    for k_, n in enumerate(DNAMES):
+        # two implementations inherit their hooks from a base class, two define them in their own body
+        Directive(n, schema_name=name)((Tagger if k_ % 2 == 0 else OwnTagger)(n))
     Scalar("Str", schema_name=name)(StrScalar())
 
     async def echo(parent, args, ctx, info):
